@@ -141,7 +141,17 @@ class RecordingRaw(io.FileIO):
         return super().close()
 
 
+WRAP = None         # optional callable applied to binary file objects (scheduler yield-point proxy)
+
+
 def vopen(file, mode='r', buffering=-1, *args, **kw):
+    f = _vopen(file, mode, buffering, *args, **kw)
+    if WRAP is not None and 'b' in mode:
+        return WRAP(f)
+    return f
+
+
+def _vopen(file, mode='r', buffering=-1, *args, **kw):
     rec = ACTIVE
     if rec is None or 'b' not in mode or not isinstance(file, (str, bytes)) or not rec.enabled:
         return builtins.open(file, mode, buffering, *args, **kw)
